@@ -54,13 +54,13 @@ TEXTS = {
                             "The statement that predicate/state blocks see the current position is FALSE for the unchanged code (known finding D2, reproduced by the model: C02_pred_ctx_is_stale). "
                             "That line/col are a pure function of (input, offset) is checked on every block invocation of every generated case by an oracle independent of model and code; its Lean proof (PtOK invariant) is not finished."),
                 level_note=RT_NOTE),
-    "C06": dict(technique="twin execution (Memoize/Debug/Statistics flipped) on the real runtime + Lean lemmas on the memo table",
+    "C06": dict(technique="Lean 4 theorem (memo-table soundness by two-run simulation) for label-free pure grammars + twin execution (Memoize/Debug/Statistics flipped) on the real runtime",
                 design_ref="DESIGN.md §5 C06",
-                level_text=("Every generated case is run on the real generated parser also with Debug, Statistics and (for terminating grammars) Memoize flipped and the results are compared on the property's own terms "
-                            "(success, value, code-block errors; everything for Debug/Statistics); the packrat bound exprCnt <= nodes*(len+1) is checked on every memoized run. Lean: the model has no input for Debug/Statistics at all; "
-                            "theorems cover the memo-table discipline (hit returns the recorded tuple without evaluating, miss records exactly the result, key = (offset, node)). The full memo-soundness statement is false for the unchanged code (known findings D7: a memo hit skips the label binding, kernel-evaluated witness C06_D7_...; D26: with left recursion a memo hit loses a rolled-back error), "
-                            "so it is not claimed as proved."),
-                level_note=RT_NOTE + " Level 'other': differential twins + partial proof."),
+                level_text=("Kernel-checked theorem C06_memoize_same_result_partial (Proofs/Sim2.lean, Proofs/MemoSound.lean): for every grammar with unique node identifiers and no throw/recover, every code environment whose blocks are pure functions of text and pos and take no label arguments (predicate blocks not looking at pos/text), every input and every pair of depths, "
+                            "Parse with Memoize(true) and with Memoize(false) return the same value and the same error list (standard template without left-recursion support, no budget); the invariant is that every memo entry is what the un-memoized parser computes at that offset from ANY state (locality theorem), with its errors already reported. "
+                            "The two hypotheses beyond C06's own are necessary: with label arguments the statement is false (finding D7), with predicates that read c.pos/c.text it is false (finding D27, found while doing this proof); both have kernel-evaluated witnesses on the model and deterministic replays on the real runtime. With left recursion: finding D26. "
+                            "Every generated case is also run on the real generated parser with Debug, Statistics and (for terminating grammars) Memoize flipped and compared on the property's own terms; the packrat bound exprCnt <= nodes*(len+1) is checked on every memoized run. The model has no input for Debug/Statistics at all."),
+                level_note=RT_NOTE + " Level 'other': theorem on a sub-domain (label-free, position-blind predicates, no left recursion) + differential twins on the whole domain; the work bound is checked per run, not proved."),
     "C10": dict(technique="Lean 4 theorem (function equality of the two template instantiations) + variant-pair execution",
                 design_ref="DESIGN.md §5 C10",
                 level_text=("Kernel-checked theorem C10_equiv: for every grammar (left-recursive included), code environment, input and option set with Memoize off, the optimized and the standard instantiation of the runtime model "
